@@ -22,21 +22,24 @@ def hexVal (c : Char) : Option Nat :=
 
 /-- `{:x}` — minimal lower-case hex, `"0"` for zero -/
 def showHex (n : Nat) : List Char :=
-  if h : n < 16 then [hexDigit n] else showHex (n / 16) ++ [hexDigit (n % 16)]
+  if _h : n < 16 then [hexDigit n] else showHex (n / 16) ++ [hexDigit (n % 16)]
 decreasing_by omega
 
 /-- digits → number, `none` on a non-digit (no overflow check here) -/
-def parseDigits (cs : List Char) : Option Nat :=
-  cs.foldl (fun acc c =>
-    match acc, hexVal c with
-    | some a, some d => some (a * 16 + d)
-    | _, _ => none) (some 0)
+def digitStep (acc : Option Nat) (c : Char) : Option Nat :=
+  match acc, hexVal c with
+  | some a, some d => some (a * 16 + d)
+  | _, _ => none
+
+def parseDigits (cs : List Char) : Option Nat := cs.foldl digitStep (some 0)
 
 /-- `uN::from_str_radix(s, 16)`: optional single `+`, at least one digit, value < 2^bits -/
+def stripPlus : List Char → List Char
+  | '+' :: rest => rest
+  | cs => cs
+
 def fromStrRadix16 (bits : Nat) (cs : List Char) : Option Nat :=
-  let ds := match cs with
-    | '+' :: rest => rest
-    | _ => cs
+  let ds := stripPlus cs
   if ds.isEmpty then none else
   match parseDigits ds with
   | some n => if n < 2 ^ bits then some n else none
